@@ -43,15 +43,33 @@ def run_impl(lines):
     return G.run_impl(lines)
 
 
+VERDICT_IDS = ("120 ", "220 ", "221 ", "222 ")
+
+
 def model_line(l):
-    return "0 |" if l.startswith("120 ") else l
+    return "0 |" if l.startswith(VERDICT_IDS) else l
 
 
 def compare(l, impl_rows, model_rows):
-    return True if l.startswith("120 ") else impl_rows == model_rows
+    return True if l.startswith(VERDICT_IDS) else impl_rows == model_rows
+
+
+NAMES = ["Valid", "Invalid", "Unknown"]
 
 
 def monitor(l, impl_rows, kv):
+    if l.startswith(("220 ", "221 ", "222 ")):
+        hdr, a, _ = G._split_rows(l)
+        x, y = a[0][0], (a[0][1] if len(a[0]) > 1 else 0)
+        got = impl_rows.strip()
+        if hdr[0] == 220:      # Invalid absorbs, Unknown dominates Valid
+            exp = 1 if 1 in (x, y) else 2 if 2 in (x, y) else 0
+            return [] if got == str(exp) else ["%s.and(%s) = %s, expected %s" % (NAMES[x], NAMES[y], NAMES[int(got)] if got in "012" else got, NAMES[exp])]
+        if hdr[0] == 221:
+            exp = (1 if x == 0 else 0) + 2 * (1 if x != 1 else 0)
+            return [] if got == str(exp) else ["is_valid_strict/relaxed(%s) = %s, expected %s" % (NAMES[x], got, exp)]
+        exp = 0 if (x and y) else 2
+        return [] if got == str(exp) else ["compare_layouts(%s, %s) = %s, expected %s" % ("Some" if x else "None", "Some" if y else "None", got, NAMES[exp])]
     exp = G.layout_expected(l)
     if exp is not None and impl_rows.strip() != str(exp):
         return ["compare_layouts reports %s for a group pair whose expected verdict is %s" % (impl_rows.strip(), exp)]
@@ -67,7 +85,11 @@ def nontrivial(l):
 
 
 def gen_cases(rng, tier):
-    return G.layout_cases(rng, tier)
+    lines, dist = G.layout_cases(rng, tier)
+    extra = ["220 | %d %d ; -1" % (a, b) for a in range(3) for b in range(3)] + ["221 | %d ; -1" % a for a in range(3)] + \
+            ["222 | %d %d ; -1" % (a, b) for a in range(2) for b in range(2)]
+    dist["verdict_function_cases"] = len(extra)
+    return extra + lines, dist
 
 
 def known_match(kf, l, fails):
